@@ -11,11 +11,10 @@ from .types import Evaluatable, Options, Value
 TEMPLATE_PARAM = re.compile(r"^:[a-zA-Z_][a-zA-Z0-9_]*:$")
 
 
-def _literal(value: Any) -> Any:
-    # A parameter contributes its value as text: braces inside it are not template syntax.
-    if isinstance(value, str):
-        return value.replace("{", "\\{").replace("}", "\\}")
-    return value
+def _literal(value: Any) -> str:
+    # A parameter contributes the string form of its value as text: braces inside it
+    # (a string containing braces, the repr of a dict or set) are not template syntax.
+    return str(value).replace("{", "\\{").replace("}", "\\}")
 
 
 class Template(Evaluatable[str]):
